@@ -13,6 +13,8 @@ import (
 	"strings"
 
 	"github.com/rs/zerolog/log"
+
+	"github.com/microsoft/yardl/tooling/internal/verifhook"
 )
 
 const (
@@ -50,6 +52,7 @@ func fetchAndCachePackages(pwd string, urls []string) ([]string, error) {
 		return nil, err
 	}
 	defer os.Chdir(curLoc)
+	verifhook.Point("chdir.inside")
 
 	var dirs []string
 	for _, src := range urls {
